@@ -208,6 +208,7 @@ package promise
 // TO  prom only changes from nil to a new promise (Resolve) or from a promise whose call failed to nil:
 //     after a success it never changes again, so cb is never called again
 // TF  a new value of prom is a promise allocated after the previous state
+// TN  a promise belongs to a Once from its creation or never
 //
 //@ ghostmap oncep: ref -> ref once
 //@ ghostmap runner: ref -> ref owned
@@ -224,8 +225,11 @@ package promise
 //
 //@ ginv R1: forall p: ref {runner(p)} :: runner(p) != nil ==> cbres(p) == 0 && oncep(p) != nil && p != nil
 //@ ginv R2: forall p: ref {runner(p)} :: runner(p) != nil ==> cast(oncep(p), Once).prom == p
-//@ ginv R3: forall p: *Promise {oncep(p)} :: oncep(p) != nil && isprom(p) && closed(p.done) ==> (cbres(p) == 1 && cellany(p.result) == cbval(p) && p.err == nil) || (cbres(p) == 2 && p.err != nil)
+//@ ginv R3: forall p: *Promise {oncep(p)} :: oncep(p) != nil && isprom(p) && closed(p.done) ==> cbres(p) == 1 || cbres(p) == 2
+//@ ginv R3ok: forall p: *Promise {oncep(p)} :: oncep(p) != nil && isprom(p) && closed(p.done) && cbres(p) == 1 ==> cellany(p.result) == cbval(p) && p.err == nil
+//@ ginv R3err: forall p: *Promise {oncep(p)} :: oncep(p) != nil && isprom(p) && closed(p.done) && cbres(p) == 2 ==> p.err != nil
 //@ ginv R4: forall p: *Promise {oncep(p)} :: oncep(p) != nil && isprom(p) && closed(p.done) && p.err != nil ==> cast(oncep(p), Once).prom != p
+//@ gtrans TN: forall p: ref {oncep(p)} :: old(allocated(p)) && old(oncep(p)) == nil ==> oncep(p) == nil
 //@ gtrans TV: forall p: ref {cbval(p)} :: old(cbres(p)) != 0 ==> cbval(p) == old(cbval(p))
 //@ gtrans TF: forall o: *Once {o.prom} :: o.prom != old(o.prom) && o.prom != nil ==> fresh(o.prom)
 //
